@@ -446,6 +446,20 @@ async def level2(sh, rig, r, regime, label):
     phases = [("healthy", r.choice([5, 30, 70])), ("blackout", r.choice([20, 150, 400])), ("healthy", r.choice([10, 140]))]
     if r.random() < 0.4:
         phases[1] = ("ping-outage", r.choice([150, 300, 400]))
+    if r.random() < 0.3:
+        # a client whose handler of ONE ping-received announcement takes minutes (a UI thread stuck):
+        # the answer it announces is as old as it is, however late the handler returns
+        phases = [("healthy", 70), ("ping-outage", 420), ("healthy", 10)]
+        slow = {"left": 1}
+
+        def slow_ping(ev):
+            if getattr(ev, "name", str(ev)) == "RUNNING_PING_RECEIVED" and slow["left"] > 0:
+                slow["left"] -= 1
+                sh.count("ping_received_handlers_suspended_for_minutes")
+                return r.choice([200, 250, 300])
+            return None
+
+        rig.event_delay = slow_ping
     from geckolib.driver import GeckoPartialStatusBlockProtocolHandler as _P
     from vlib.rig import CLIENT_ID as _CID
     from vlib.rig import SPA_ID as _SID
@@ -486,6 +500,7 @@ async def level2(sh, rig, r, regime, label):
             elif k == "rem":
                 users.append(asyncio.ensure_future(spa.async_get_reminders()))
     blackout["on"] = False
+    rig.event_delay = None
     done, pending = await asyncio.wait(users, timeout=800) if users else (set(), set())
     for t in pending:
         mon.harness_cancelled.add(t.get_name())
